@@ -3,7 +3,7 @@
 From Coq Require Import ZArith Reals SpecFloat.
 From Flocq Require Import Core BinarySingleNaN.
 Require Import Base Value Float PrintOptions Printer ParseOptions Utf8 Reader Scan Num NumberOps Parser.
-Require Import ReaderProofs TokenProofs NumTokenProofs DecimalProofs RadixProofs ClingerProofs FloatLiteralProofs.
+Require Import ReaderProofs TokenProofs NumTokenProofs DecimalProofs RadixProofs ClingerProofs FloatLiteralProofs FuelProofs FiniteFloat.
 Require Import Lexpr.Props.C05.
 Local Open Scope N_scope.
 
@@ -100,6 +100,24 @@ Check (C05_signed_decimal_literal_fast_correct :
       (Ok (TNumber (Float (if sg =? 43 then B2SF b else f64_neg (B2SF b)))), r') /\
     at_bytes r' rest /\ rk r' = rk r /\ is_finite b = true /\
     B2R b = round radix2 (SpecFloat.fexp 53 1024) ZnearestE (dec_value (lit_sig (d :: ip) fs) (lit_exp_exact fs ex))).
+
+Check (C05_never_infinite_or_nan :
+  forall fast std_parse,
+  (fast = false -> forall s e, is_infinite_f64 (std_parse s e) = false -> finb (std_parse s e)) ->
+  forall fuel radix pos r n r', (radix = 2 \/ radix = 8 \/ radix = 10 \/ radix = 16) ->
+  (parse_num_token fast std_parse fuel radix pos r = (Ok n, r') \/
+   parse_radix_literal fast std_parse fuel radix r = (Ok n, r') \/
+   parse_num_literal fast std_parse fuel radix pos r = (Ok n, r') \/
+   parse_number fast std_parse fuel r = (Ok n, r')) ->
+  match n with Float f => is_finite_f64 f = true | _ => True end).
+
+Check (C05_out_of_range_witness :
+  (match from_trait default_ro (fun _ => true) true dec_to_f64 SrcSlice (bytes_events (s2b "1e400")) with
+   | PErr (XErr (ESyntax NumberOutOfRange _ _)) => true | _ => false end) &&
+  (match from_trait default_ro (fun _ => true) true dec_to_f64 SrcSlice (bytes_events (s2b "#xFFFFFFFFFFFFFFFFFFFF")) with
+   | POk (Number (Float f)) => is_finite_f64 f | _ => false end) &&
+  (match from_trait default_ro (fun _ => true) false dec_to_f64 SrcSlice (bytes_events (s2b "-2e308")) with
+   | PErr (XErr (ESyntax NumberOutOfRange _ _)) => true | _ => false end) = true).
 
 Check (C05_decimal_nonvacuous :
   let ip := s2b "1" in let fs := s2b "4159" in let ex := Some (69, Some false, s2b "1") in
